@@ -18,7 +18,7 @@
    (names C20_pol_...), third part: Miniscript::translate_pk_ctx with hash translation (names C20_trh_...). *)
 From Coq Require Import Permutation.
 From Verif Require Import TranslateModel TranslateProofs EqOrdProofs.
-From Verif Require Import TranslatePolModel TranslatePolProofs.
+From Verif Require Import TranslatePolModel TranslatePolProofs TranslateHashModel TranslateHashProofs.
 
 (* ---- the algorithm as coded computes the recursive translation: same result, same first error, no panic *)
 Theorem C20_tr_iter_refines : forall f chk m, translate_iter f chk m = translate f chk m.
@@ -220,3 +220,65 @@ Example C20_pol_nonvacuous :
   atoms_rtl ex_pol = [AHash HHash160 [7]; AKey 1; AHash HSha256 [1; 2]; AKey 0] /\
   is_semantic ex_pol = false /\ is_semantic (QThresh 1 [QKey 0; QHash256 [3]]) = true.
 Proof. exact ptranslate_examples. Qed.
+
+(* ==================================================================================================================
+   Miniscript::translate_pk_ctx with hash translation (Ms/TranslateHashModel.v): `translate_iter_h f fh chk` is the loop
+   as coded with the four hash arms (`t.sha256(x)?` ...), `translate_h` the recursive translation, `map_atoms g gh` the
+   substitution of keys and hashes, `matoms_pre` the keys and hashes of the term in text order.  The descriptor wrappers
+   (`translate_desc_h`) are tied by the runs. *)
+Theorem C20_trh_iter_refines : forall f fh chk m, translate_iter_h f fh chk m = translate_h f fh chk m.
+Proof. exact translate_iter_h_refines. Qed.
+Print Assumptions C20_trh_iter_refines.
+
+Theorem C20_trh_iter_no_panic : forall f fh chk m s, translate_iter_h f fh chk m <> TPanic s.
+Proof. exact translate_iter_h_no_panic. Qed.
+Print Assumptions C20_trh_iter_no_panic.
+
+Theorem C20_trh_id : forall chk m, chk_ok chk m -> translate_iter_h (fun _ k => Some k) (fun _ _ h => Some h) chk m = TOk m.
+Proof. exact iter_h_id. Qed.
+Print Assumptions C20_trh_id.
+
+Theorem C20_trh_comp : forall chk fp fhp gp ghp m m1 m2,
+  translate_iter_h (fun _ => fp) (fun _ => fhp) chk m = TOk m1 ->
+  translate_iter_h (fun _ => gp) (fun _ => ghp) chk m1 = TOk m2 ->
+  translate_iter_h (fun _ => comp_k fp gp) (fun _ => comp_h fhp ghp) chk m = TOk m2.
+Proof. exact iter_h_comp. Qed.
+Print Assumptions C20_trh_comp.
+
+(* success: the result is the substitution, every key and hash of the term is mapped, every rebuilt node passed from_ast *)
+Theorem C20_trh_structure : forall fp fhp chk m m',
+  translate_iter_h (fun _ => fp) (fun _ => fhp) chk m = TOk m' ->
+  m' = map_atoms (total fp) (total_h fhp) m /\
+  (forall a, In a (matoms_pre m) -> atom_ok fp fhp a = true) /\ chk_ok chk m'.
+Proof. exact iter_h_structure. Qed.
+Print Assumptions C20_trh_structure.
+
+Theorem C20_trh_complete : forall fp fhp chk m,
+  (forall a, In a (matoms_pre m) -> atom_ok fp fhp a = true) -> chk_ok chk (map_atoms (total fp) (total_h fhp) m) ->
+  translate_iter_h (fun _ => fp) (fun _ => fhp) chk m = TOk (map_atoms (total fp) (total_h fhp) m).
+Proof. exact iter_h_complete. Qed.
+Print Assumptions C20_trh_complete.
+
+(* a failure is caused by a key or hash of the term on which the mapping fails, or (everything mapped) by from_ast rejecting
+   a node of the substituted term.  (The finer statement C20_tr_fail_only, which names the rejected sub-term and the error,
+   is proved for the key-only model; here the weaker form is proved.) *)
+Theorem C20_trh_fail_only_partial : forall fp fhp chk m e,
+  translate_iter_h (fun _ => fp) (fun _ => fhp) chk m = TErr e ->
+  (exists a, In a (matoms_pre m) /\ atom_ok fp fhp a = false) \/
+  ((forall a, In a (matoms_pre m) -> atom_ok fp fhp a = true) /\ ~ chk_ok chk (map_atoms (total fp) (total_h fhp) m)).
+Proof. exact iter_h_fail_only. Qed.
+Print Assumptions C20_trh_fail_only_partial.
+
+Theorem C20_trh_call_order : forall m, Permutation (matoms_rtl m) (matoms_pre m).
+Proof. exact matoms_perm. Qed.
+Print Assumptions C20_trh_call_order.
+
+Example C20_trh_nonvacuous :
+  let m := MAndV (MVerify (MSha256 [1; 2])) (MAndOr (MCheck (MPkK 0)) (MHash160 [9]) (MCheck (MPkH 2))) in
+  let chk := from_ast_chk Segwitv0 (fun _ => KCompressed) (fun _ => None) (fun _ => None) in
+  translate_iter_h (fun _ k => Some (k + 20)) (fun _ _ h => Some (7 :: h)) chk m
+    = TOk (MAndV (MVerify (MSha256 [7; 1; 2])) (MAndOr (MCheck (MPkK 20)) (MHash160 [7; 9]) (MCheck (MPkH 22)))) /\
+  translate_iter_h (fun _ k => Some k) (fun _ hk h => match hk with HSha256 => None | _ => Some h end) chk m = TErr (TranslatorErr 3) /\
+  translate_iter_h (fun _ k => Some k) (fun n _ h => if N.eqb n 1 then None else Some h) chk m = TErr (TranslatorErr 1) /\
+  matoms_rtl m = [AKey 2; AHash HHash160 [9]; AKey 0; AHash HSha256 [1; 2]].
+Proof. exact translate_h_examples. Qed.
